@@ -33,6 +33,14 @@ pub uninterp spec fn f64_le_s(a: f64, b: f64) -> bool;
 pub uninterp spec fn f64_gt_s(a: f64, b: f64) -> bool;
 pub uninterp spec fn f64_ge_s(a: f64, b: f64) -> bool;
 pub uninterp spec fn f64_eq_s(a: f64, b: f64) -> bool;
+// The same laws for the f64 operations themselves (IEEE 754 addition and multiplication are commutative bit for bit, NaN payloads
+// aside; `a > b` is `b < a`): `dod + x` for `x + dod` in an exponent computed in f64 must not alarm.
+pub broadcast axiom fn ax_f64_add_comm(a: f64, b: f64) ensures #[trigger] f64_add_s(a, b) == f64_add_s(b, a);
+pub broadcast axiom fn ax_f64_mul_comm(a: f64, b: f64) ensures #[trigger] f64_mul_s(a, b) == f64_mul_s(b, a);
+pub broadcast axiom fn ax_f64_gt_dual(a: f64, b: f64) ensures #[trigger] f64_gt_s(a, b) == f64_lt_s(b, a);
+pub broadcast axiom fn ax_f64_ge_dual(a: f64, b: f64) ensures #[trigger] f64_ge_s(a, b) == f64_le_s(b, a);
+pub broadcast axiom fn ax_f64_eq_sym(a: f64, b: f64) ensures #[trigger] f64_eq_s(a, b) == f64_eq_s(b, a);
+pub broadcast group scalar_laws { ax_add_comm, ax_mul_comm, ax_gt_dual, ax_ge_dual, ax_eq_sym, ax_f64_add_comm, ax_f64_mul_comm, ax_f64_gt_dual, ax_f64_ge_dual, ax_f64_eq_sym }
 /// an f64 operand passed by value or by reference (`1.0 / self` with self: &f64 uses `Div<&f64> for f64`)
 pub trait F64Arg: Sized { spec fn f64v(self) -> f64; }
 impl F64Arg for f64 { open spec fn f64v(self) -> f64 { self } }
